@@ -256,10 +256,18 @@ def _judge(prop, records, name):
         if key not in uniq:
             uniq[key] = {'id': 'u%d' % len(uniq), 'scn': r['scn'], 'obs': r['obs']}
         index.append(uniq[key]['id'])
-    fails, rj = tlc.judge('RemotePickleJudge', list(uniq.values()), name=name, env={'RP_PROP': prop}, timeout=3000)
-    byu = {}
-    for x in rj.tags.get('FAIL', []):
-        byu.setdefault(x[0], []).append((x[1], x[2]))
+    # in parts small enough for ONE TLC run each: the signature is read from the FAIL lines of that run's output
+    # (tlc.judge splits larger sets into several runs and returns only the last run's output)
+    ulist, byu, rj, distinct, generated, nfail = list(uniq.values()), {}, None, 0, 0, 0
+    for k in range(0, max(1, len(ulist)), 2000):
+        fails, r1 = tlc.judge('RemotePickleJudge', ulist[k:k + 2000], name=name, env={'RP_PROP': prop}, timeout=3000)
+        tags = r1.tags.get('FAIL', [])
+        if len(tags) != len(fails):
+            raise MachineryError('judge: %d FAIL lines parsed but %d failures reported' % (len(tags), len(fails)))
+        for x in tags:
+            byu.setdefault(x[0], []).append((x[1], x[2]))
+        distinct, generated, rj = distinct + r1.distinct, generated + r1.generated, r1
+    rj.distinct, rj.generated = distinct, generated
     return [byu.get(u, []) for u in index], rj, len(uniq)
 
 
